@@ -88,12 +88,15 @@ HoldSpace(ws, TMax) ==
            << [t |-> 4, a |-> 2, d |-> 3], [t |-> 5, a |-> 2, d |-> 6] >>,  \* acquired inside / around
            << [t |-> 2, a |-> 1, d |-> 3], [t |-> 7, a |-> 3, d |-> 3], [t |-> 8, a |-> 1, d |-> 9] >> }
 
+\* stacked latency windows add up: the horizon must leave room for the slowest probe message
+RECURSIVE LatSum(_, _)
+LatSum(ws, i) == IF i > Len(ws) THEN 0 ELSE (IF ws[i].k = "lat" THEN ws[i].x ELSE 0) + LatSum(ws, i + 1)
 Workload(ws, hs, Mode, dv) ==
     LET tg == CrashTargets(ws)
         jobs == (IF Mode \in {"node"} THEN NodeJobs(ws, 1, 3) \o NodeJobs(ws, 2, 1)
                  ELSE IF 1 \in tg THEN NodeJobs(ws, 1, 2) \o NodeJobs(ws, 2, 1) ELSE <<>>)
                 \o (IF Q \in tg THEN QJobs(ws) ELSE <<>>)
-    IN [dev |-> dv, C |-> 4, L0 |-> 3, H |-> LastEdge(ws) + 15 + 3 * Len(jobs), wins |-> ws, groups |-> Groups,
+    IN [dev |-> dv, C |-> 4, L0 |-> 3, H |-> LastEdge(ws) + 15 + 3 * Len(jobs) + LatSum(ws, 1), wins |-> ws, groups |-> Groups,
         jobs |-> jobs, probes |-> Probes(ws), holds |-> hs]
 
 Mono(f, n, dir) == \A i \in 1..(n - 1) : IF dir = 1 THEN f[i] <= f[i + 1] ELSE f[i] > f[i + 1]
